@@ -146,6 +146,11 @@ class _TypeQualifier(type):
     def __getitem__(cls, Wrapped: type | tuple):
         # direction only used for ports
 
+        # subscripting an already parametrised class (Signal[BitVector][Bit]) refers to the family,
+        # the new class must not inherit from (or be cached relative to) the class it was reached through
+        if "_SubTypes" not in vars(cls):
+            cls = next((c for c in cls.__mro__ if "_SubTypes" in vars(c)), cls)
+
         if isinstance(Wrapped, tuple):
             WrappedType, direction = Wrapped
         else:
